@@ -136,7 +136,7 @@ theorem step_ref (s : State) (op : Op) (e : Err) (i : Inv s)
   | delslice g a b =>
     simp only [step, Op.target]; split
     · exact fun _ => SameTree.refl s
-    · intro h; simp [opDelslice] at h
+    · intro h; simp [opDelslice, finishRemove] at h
   | deleteLayer x => exact fun h => opDeleteLayer_ref x e h hne
   | moveToGroup x g => exact fun h => opMoveToGroup_ref i x g e h hne
   | moveUp x k => exact fun h => opMoveUp_ref i x k e h hne
